@@ -181,6 +181,9 @@ func (v *Voucher) DevicePublicKey() (crypto.PublicKey, error) {
 	if len(*v.CertChain) == 0 {
 		return nil, errors.New("empty cert chain")
 	}
+	if (*v.CertChain)[0] == nil {
+		return nil, errors.New("device cert chain contains a null certificate")
+	}
 	return (*v.CertChain)[0].PublicKey, nil
 }
 
@@ -190,7 +193,11 @@ func (v *Voucher) OwnerPublicKey() (crypto.PublicKey, error) {
 	if len(v.Entries) == 0 {
 		return v.Header.Val.ManufacturerKey.Public()
 	}
-	return v.Entries[len(v.Entries)-1].Payload.Val.PublicKey.Public()
+	last := v.Entries[len(v.Entries)-1]
+	if last.Payload == nil {
+		return nil, errors.New("last voucher entry has no payload")
+	}
+	return last.Payload.Val.PublicKey.Public()
 }
 
 // VerifyHeader checks that the OVHeader was not modified by comparing the HMAC
@@ -210,6 +217,9 @@ func (v *Voucher) VerifyDeviceCertChain(roots *x509.CertPool) error {
 	}
 	chain := make([]*x509.Certificate, len(*v.CertChain))
 	for i, cert := range *v.CertChain {
+		if cert == nil {
+			return errors.New("device cert chain contains a null certificate")
+		}
 		chain[i] = (*x509.Certificate)(cert)
 	}
 	return verifyCertChain(chain, roots)
@@ -227,8 +237,15 @@ func (v *Voucher) VerifyCertChainHash() error {
 	}
 
 	cchash := v.Header.Val.CertChainHash
-	digest := cchash.Algorithm.HashFunc().New()
+	cchashFunc, err := hashFor(cchash.Algorithm)
+	if err != nil {
+		return fmt.Errorf("device cert chain hash: %w", err)
+	}
+	digest := cchashFunc.New()
 	for _, cert := range *v.CertChain {
+		if cert == nil {
+			return errors.New("device cert chain contains a null certificate")
+		}
 		if _, err := digest.Write(cert.Raw); err != nil {
 			return fmt.Errorf("error computing hash: %w", err)
 		}
@@ -290,6 +307,13 @@ func (v *Voucher) VerifyEntries() error {
 	// Voucher may have never been extended since manufacturing
 	if len(v.Entries) == 0 {
 		return nil
+	}
+
+	// Entries decoded from a peer may carry a null payload
+	for i, entry := range v.Entries {
+		if entry.Payload == nil {
+			return fmt.Errorf("voucher entry %d has no payload", i)
+		}
 	}
 
 	// Header info is the concatenation of GUID and DeviceInfo
